@@ -101,6 +101,7 @@ TEMPLATES = {
   # byte reaches far beyond the TCP header
   'tcp_long':  lambda n: ETH + [0x08, 0x00],
   'tcp_mptcp': lambda n: ETH + [0x08, 0x00],
+  'tcp_mptcp40': lambda n: ETH + [0x08, 0x00],      # the same with a full 40-byte option area (data offset 15): whatever the parser makes of it must fit back into a TCP header
   # complete DHCP message whose option area holds two long option instances (200 and 100 value bytes) with a *symbolic code*: when the codes
   # coincide the parser concatenates the instances (RFC 3396) into a value longer than 255 bytes, which must still print and re-serialise
   'dhcp_long': lambda n: ETH + [0x08, 0x00],
@@ -115,6 +116,9 @@ TEMPLATES = {
   'rip_entry': lambda n: ETH + [0x08, 0x00],
   # DNS response with a CNAME / NS record whose target name is four characters long ("t.co", "a.gl"): id, flags, ttl and record type (2 or 5) symbolic
   'dns_name4': lambda n: ETH + [0x08, 0x00],
+  # IPv6 neighbour solicitation with one source/target link-layer address option: option type (1|2) and *length* (1..3 units) symbolic, the
+  # ICMPv6 checksum symbolic (so the solver can make it verify), 22 option bytes present
+  'nd_lladdr': lambda n: ETH + [0x86, 0xdd],
   'nest_vxlan': lambda n: [], 'nest_icmp': lambda n: [], 'nest_gre': lambda n: [], 'nest_greeth': lambda n: [],
 }
 
@@ -172,13 +176,15 @@ def h_template(ctx, name, n, proto=None, ports=None):
   if ports is not None and tuple(ports) == (68, 67) and len(body) >= 28 + 240:
     body[28 + 236:28 + 240] = [0x63, 0x82, 0x53, 0x63]      # DHCP magic cookie, so that the option parser is reached; hlen stays symbolic
     for k in range(28 + 44, 28 + 236): body[k] = 0           # sname / file: concrete zeros (only copied)
-  if name in ('tcp_long', 'tcp_mptcp'):
+  if name in ('tcp_long', 'tcp_mptcp', 'tcp_mptcp40'):
     iplen = n - 14
     sym = body
     iph = [0x45, 0, iplen >> 8, iplen & 255, 0, 1, 0, 0, 64, 6, 0, 0, 10, 0, 0, 1, 10, 0, 0, 2]
     if name == 'tcp_long':
       # data offset 6: one 4-byte option word, all four bytes symbolic (a length byte may point far into the 270-byte payload)
       opts = list(sym[0:4]); off = 6
+    elif name == 'tcp_mptcp40':
+      opts = [30, sym[0], sym[1], sym[2]] + [0, 0, 0, 9] + [1, 1, 1, 1] * 2 + [8, 10, 0, 0, 0, 1, 0, 0, 0, 2] + [2, 4, 5, 180] + [1, 1, 4, 2] + [3, 3, 7, 1] + [0, 0]; off = 15
     else:
       # MPTCP option (kind 30): length, subtype/version, flags and four more bytes symbolic, the rest of a 24-byte option area concrete
       opts = [30, sym[0], sym[1], sym[2]] + list(sym[3:7]) + [1, 2, 3, 4, 5, 6, 7, 8, 9, 10, 11, 12, 13, 14, 15, 16]; off = 11
@@ -192,6 +198,11 @@ def h_template(ctx, name, n, proto=None, ports=None):
     bootp = [1, 1, 6, 0] + list(sym[3:7]) + [0] * 20 + [2, 0, 0, 0, 0, 1] + [0] * 10 + [0] * 192 + [0x63, 0x82, 0x53, 0x63]
     udplen = 8 + len(bootp) + len(opts); iplen = 20 + udplen
     body = [0x45, 0, iplen >> 8, iplen & 255, 0, 1, 0, 0, 64, 17, 0, 0, 0, 0, 0, 0, 255, 255, 255, 255] + [0, 68, 0, 67, udplen >> 8, udplen & 255, 0, 0] + bootp + opts
+  if name == 'nd_lladdr':
+    sym = body
+    opt = [1 + (sym[2] & 1), 1 + (sym[3] & 3)] + [2, 0, 0, 0, 0, 7] + [0x11] * 16
+    icmp = [135, 0, sym[0], sym[1], 0, 0, 0, 0] + [0xfe, 0x80] + [0] * 13 + [2] + opt
+    body = [0x60, 0, 0, 0, 0, len(icmp), 58, 255] + [0xfe, 0x80] + [0] * 13 + [1] + [0xff, 0x02] + [0] * 9 + [1, 0xff, 0, 0, 2] + icmp
   if name == 'dns_name4':
     sym = body
     q = [3, 0x77, 0x77, 0x77, 1, 0x78, 0] + [0, 1, 0, 1]                                    # www.x  A IN
@@ -242,7 +253,7 @@ def obligations(tier):
                      ('mpls', [14, 18, 22]), ('llc', [14, 17, 18, 22, 24]), ('ipv6', [14, 30, 54, 58])):
     for n in lens: t.append(dict(name=name, n=n))
   for n in [32, 34, 36] + ([38] if thorough else []): t.append(dict(name='lldp4', n=n))
-  t.append(dict(name='rip_entry', n=24)); t.append(dict(name='dns_name4', n=14 + 9)); t.append(dict(name='tcp_long', n=330)); t.append(dict(name='tcp_mptcp', n=90)); t.append(dict(name='dhcp_long', n=30))
+  t.append(dict(name='rip_entry', n=24)); t.append(dict(name='dns_name4', n=14 + 9)); t.append(dict(name='nd_lladdr', n=14 + 10)); t.append(dict(name='tcp_long', n=330)); t.append(dict(name='tcp_mptcp', n=90)); t.append(dict(name='tcp_mptcp40', n=110)); t.append(dict(name='dhcp_long', n=30))
   for n in (1378, 1458, 1514): t.append(dict(name='vlan_stack', n=n))
   for n in (1378, 1514): t.append(dict(name='mpls_stack', n=n))
   for name, lens in (('nest_vxlan', [600, 1514, 9014]), ('nest_icmp', [400, 9014]), ('nest_gre', [400, 9014]), ('nest_greeth', [500, 9014])):
@@ -255,7 +266,7 @@ def obligations(tier):
     for n in lens: t.append(dict(name='ip', n=n, proto=17, ports=ports))
   for proto, lens in ((58, [54, 58, 62, 78]), (17, [54, 62]), (6, [54, 74]), (0, [54, 62, 70]), (43, [58, 62]), (44, [55, 58, 61, 62]), (60, [58, 62])):
     for n in lens: t.append(dict(name='ipv6', n=n, proto=proto))
-  if not thorough: t = [c for i, c in enumerate(t) if c['n'] <= 58 or (c['name'] == 'ipv6' and c.get('proto') in (43, 44, 60)) or c.get('ports') == (68, 67) or c.get('proto') == 1 or c['name'] in ('rip_entry', 'dns_name4', 'tcp_long', 'tcp_mptcp', 'dhcp_long', 'vlan_stack', 'mpls_stack') or c['name'].startswith('nest_')]
+  if not thorough: t = [c for i, c in enumerate(t) if c['n'] <= 58 or (c['name'] == 'ipv6' and c.get('proto') in (43, 44, 60)) or c.get('ports') == (68, 67) or c.get('proto') == 1 or c['name'] in ('rip_entry', 'dns_name4', 'nd_lladdr', 'tcp_long', 'tcp_mptcp', 'tcp_mptcp40', 'dhcp_long', 'vlan_stack', 'mpls_stack') or c['name'].startswith('nest_')]
   BOUNDS[tier] = dict(random_frame_lengths=rnd, templates=len(t), template_note="dispatch fields fixed, all other bytes (incl. every length/offset field) symbolic, "
                       "frame length = truncation point")
   return [
